@@ -526,72 +526,78 @@ func vfEqMD(b aft.Binary, has bool, v uint8) bool {
 
 // compare checks that the real RIB's tables, reference counters and held set
 // equal the reference state (C01 A1, C03 I2, C02 B2).
-func (r *vfRef) compare(real *RIB) {
+func (r *vfRef) compare(real *RIB) { r.compareP(real, "C01:", false) }
+
+// compareP: as compare, with the table assertions labelled p+...; tablesOnly skips counters and held set.
+func (r *vfRef) compareP(real *RIB, p string, tablesOnly bool) {
 	for _, name := range r.names {
 		n := r.ni[name]
 		h := real.niRIB[name]
-		vfAssert(h != nil, "C01:instance-exists")
+		vfAssert(h != nil, p+"instance-exists")
 		if h == nil {
 			continue
 		}
 		a := h.r.Afts
-		vfAssert(len(a.Ipv4Entry) == len(n.v4), "C01:ipv4-table-size-equals-fold")
+		vfAssert(len(a.Ipv4Entry) == len(n.v4), p+"ipv4-table-size-equals-fold")
 		for k, t := range n.v4 {
 			e := a.Ipv4Entry[k]
-			vfAssert(e != nil, "C01:acked-ipv4-entry-installed")
+			vfAssert(e != nil, p+"acked-ipv4-entry-installed")
 			if e == nil {
 				continue
 			}
-			vfAssert(e.Prefix != nil && *e.Prefix == k, "C01:ipv4-key-consistent")
-			vfAssert(vfAnd(vfEqU64p(e.NextHopGroup, t.hasNHG, t.nhg), vfAnd(vfEqStrp(e.NextHopGroupNetworkInstance, t.hasNHGNI, t.nhgNI), vfEqMD(e.EntryMetadata, t.hasMD, t.md))), "C01:ipv4-payload-equals-last-acked")
+			vfAssert(e.Prefix != nil && *e.Prefix == k, p+"ipv4-key-consistent")
+			vfAssert(vfAnd(vfEqU64p(e.NextHopGroup, t.hasNHG, t.nhg), vfAnd(vfEqStrp(e.NextHopGroupNetworkInstance, t.hasNHGNI, t.nhgNI), vfEqMD(e.EntryMetadata, t.hasMD, t.md))), p+"ipv4-payload-equals-last-acked")
 		}
-		vfAssert(len(a.Ipv6Entry) == len(n.v6), "C01:ipv6-table-size-equals-fold")
+		vfAssert(len(a.Ipv6Entry) == len(n.v6), p+"ipv6-table-size-equals-fold")
 		for k, t := range n.v6 {
 			e := a.Ipv6Entry[k]
-			vfAssert(e != nil, "C01:acked-ipv6-entry-installed")
+			vfAssert(e != nil, p+"acked-ipv6-entry-installed")
 			if e == nil {
 				continue
 			}
-			vfAssert(e.Prefix != nil && *e.Prefix == k, "C01:ipv6-key-consistent")
-			vfAssert(vfAnd(vfEqU64p(e.NextHopGroup, t.hasNHG, t.nhg), vfAnd(vfEqStrp(e.NextHopGroupNetworkInstance, t.hasNHGNI, t.nhgNI), vfEqMD(e.EntryMetadata, t.hasMD, t.md))), "C01:ipv6-payload-equals-last-acked")
+			vfAssert(e.Prefix != nil && *e.Prefix == k, p+"ipv6-key-consistent")
+			vfAssert(vfAnd(vfEqU64p(e.NextHopGroup, t.hasNHG, t.nhg), vfAnd(vfEqStrp(e.NextHopGroupNetworkInstance, t.hasNHGNI, t.nhgNI), vfEqMD(e.EntryMetadata, t.hasMD, t.md))), p+"ipv6-payload-equals-last-acked")
 		}
-		vfAssert(len(a.LabelEntry) == len(n.mpls), "C01:mpls-table-size-equals-fold")
+		vfAssert(len(a.LabelEntry) == len(n.mpls), p+"mpls-table-size-equals-fold")
 		for k, t := range n.mpls {
 			e := a.LabelEntry[aft.UnionUint32(uint32(k))]
-			vfAssert(e != nil, "C01:acked-mpls-entry-installed")
+			vfAssert(e != nil, p+"acked-mpls-entry-installed")
 			if e == nil {
 				continue
 			}
-			vfAssert(e.Label == aft.UnionUint32(uint32(k)), "C01:mpls-key-consistent")
-			vfAssert(vfAnd(vfEqU64p(e.NextHopGroup, t.hasNHG, t.nhg), vfAnd(vfEqStrp(e.NextHopGroupNetworkInstance, t.hasNHGNI, t.nhgNI), vfEqMD(e.EntryMetadata, t.hasMD, t.md))), "C01:mpls-payload-equals-last-acked")
+			vfAssert(e.Label == aft.UnionUint32(uint32(k)), p+"mpls-key-consistent")
+			vfAssert(vfAnd(vfEqU64p(e.NextHopGroup, t.hasNHG, t.nhg), vfAnd(vfEqStrp(e.NextHopGroupNetworkInstance, t.hasNHGNI, t.nhgNI), vfEqMD(e.EntryMetadata, t.hasMD, t.md))), p+"mpls-payload-equals-last-acked")
 		}
-		vfAssert(len(a.NextHopGroup) == len(n.nhg), "C01:nhg-table-size-equals-fold")
+		vfAssert(len(a.NextHopGroup) == len(n.nhg), p+"nhg-table-size-equals-fold")
 		for k, g := range n.nhg {
 			e := a.NextHopGroup[k]
-			vfAssert(e != nil, "C01:acked-nhg-installed")
+			vfAssert(e != nil, p+"acked-nhg-installed")
 			if e == nil {
 				continue
 			}
-			vfAssert(e.Id != nil && *e.Id == k, "C01:nhg-key-consistent")
-			vfAssert(vfAnd(vfEqU64p(e.BackupNextHopGroup, g.hasBackup, g.backup), vfEqU64p(e.Color, g.hasColor, g.color)), "C01:nhg-payload-equals-last-acked")
-			vfAssert(len(e.NextHop) == len(g.members), "C01:nhg-member-count-equals-last-acked")
+			vfAssert(e.Id != nil && *e.Id == k, p+"nhg-key-consistent")
+			vfAssert(vfAnd(vfEqU64p(e.BackupNextHopGroup, g.hasBackup, g.backup), vfEqU64p(e.Color, g.hasColor, g.color)), p+"nhg-payload-equals-last-acked")
+			vfAssert(len(e.NextHop) == len(g.members), p+"nhg-member-count-equals-last-acked")
 			for mk, m := range g.members {
 				me := e.NextHop[mk]
-				vfAssert(me != nil, "C01:nhg-member-present")
+				vfAssert(me != nil, p+"nhg-member-present")
 				if me != nil {
-					vfAssert(vfEqU64p(me.Weight, m.hasW, m.w), "C01:nhg-member-weight")
+					vfAssert(vfEqU64p(me.Weight, m.hasW, m.w), p+"nhg-member-weight")
 				}
 			}
 		}
-		vfAssert(len(a.NextHop) == len(n.nh), "C01:nh-table-size-equals-fold")
+		vfAssert(len(a.NextHop) == len(n.nh), p+"nh-table-size-equals-fold")
 		for k, x := range n.nh {
 			e := a.NextHop[k]
-			vfAssert(e != nil, "C01:acked-nh-installed")
+			vfAssert(e != nil, p+"acked-nh-installed")
 			if e == nil {
 				continue
 			}
-			vfAssert(e.Index != nil && *e.Index == k, "C01:nh-key-consistent")
-			vfAssert(vfEqStrp(e.NetworkInstance, x.hasTag, x.tag), "C01:nh-payload-equals-last-acked")
+			vfAssert(e.Index != nil && *e.Index == k, p+"nh-key-consistent")
+			vfAssert(vfEqStrp(e.NetworkInstance, x.hasTag, x.tag), p+"nh-payload-equals-last-acked")
+		}
+		if tablesOnly {
+			continue
 		}
 		// C03 I2: deletion protection = referrers found by scanning the installed entries
 		for id, c := range h.refCounts.NextHopGroup {
@@ -606,6 +612,9 @@ func (r *vfRef) compare(real *RIB) {
 		for id := range n.nh {
 			vfAssert(h.refCounts.NextHop[id] == r.nhReferrers(name, id), "C03:installed-nh-refcount-equals-referrers")
 		}
+	}
+	if tablesOnly {
+		return
 	}
 	// held set
 	vfAssert(len(real.pendingEntries) == len(r.held), "C06:held-set-equals-unanswered-operations")
